@@ -96,6 +96,11 @@ def make_callers(procs):
     add("nobody-tool", e2e.NOBODY_UID, pid, path, cmd)
     pid, path, cmd = procs.spawn("tool", ["my tool", "2", "600"])  # same user and executable, another command line
     add("nobody-tool2", e2e.NOBODY_UID, pid, path, cmd)
+    long_prefix = "svc-" + "x" * 300          # longer than any plausible key truncation, identical in both
+    pid, path, cmd = procs.spawn("tool", [long_prefix + "-billing", "600"])
+    add("nobody-longA", e2e.NOBODY_UID, pid, path, cmd)
+    pid, path, cmd = procs.spawn("tool", [long_prefix + "-exporter", "600"])
+    add("nobody-longB", e2e.NOBODY_UID, pid, path, cmd)
     return pool
 
 
@@ -148,6 +153,8 @@ def gen_history(rng, idx, pool, concurrent):
     if rng.random() < 0.25 and not concurrent:
         # make sure the colliding pair meets in a good share of the sequential histories
         chosen = list(dict.fromkeys(["root-ab", "root-a"] + chosen))[:max(2, k)]
+    if rng.random() < 0.15:
+        chosen = list(dict.fromkeys(["nobody-longA", "nobody-longB"] + chosen))[:max(2, k)]
     if concurrent and "root-ab" in chosen and "root-a" in chosen:
         chosen.remove("root-a")          # which of two colliding callers comes first would be schedule-dependent
     callers = [pool[n] for n in chosen]
@@ -175,13 +182,49 @@ def gen_history(rng, idx, pool, concurrent):
                 clear = True
         reqs = []
         hot = rng.choice(TARGETS)
+        conn_rules = cur
         for j in range(sizes[ci]):
             t = hot if rng.random() < 0.6 else rng.choice(TARGETS)      # repeated identical denials
             m = "GET" if rng.random() < 0.85 else "POST"
-            reqs.append({"method": m, "target": t, "body": b"" if m == "GET" else b"k=v&x=%d" % j})
-        conns.append({"id": ci + 1, "caller": c["name"], "dest": dest, "reqs": reqs, "rules": cur, "change": change, "clear": clear})
+            rchange = None
+            if not concurrent and j > 0 and rng.random() < 0.08:
+                # the rules change while the connection is open: this request is judged by the NEW rules
+                ep = ENDPOINT_KEY.get(dest) if rng.random() < 0.8 else None
+                ep = ep or rng.choice(["wireserver", "hostga", "imds"])
+                cur = dict(cur)
+                old_doc = cur[ep]
+                if old_doc is not None and rng.random() < 0.7:
+                    nd = dict(old_doc)
+                    nd["mode"] = rng.choice([x for x in ("enforce", "audit", "disabled") if x != G.parse_mode_py(old_doc["mode"])])
+                    cur[ep] = nd
+                else:
+                    cur[ep] = gen_doc(rng, callers)
+                rchange = ep
+            reqs.append({"method": m, "target": t, "body": b"" if m == "GET" else b"k=v&x=%d" % j, "rules": cur, "change": rchange})
+        conns.append({"id": ci + 1, "caller": c["name"], "dest": dest, "reqs": reqs, "rules": conn_rules, "change": change, "clear": clear})
     return {"idx": idx, "concurrent": concurrent, "callers": chosen, "rules": rules, "conns": conns,
             "key": rng.random() < 0.5, "status_task": rng.random() < 0.6}
+
+
+def finalize(h):
+    """every request carries the rules in force when it is sent (default: the connection's)"""
+    for c in h["conns"]:
+        c["reqs"] = [dict(rq) for rq in c["reqs"]]
+        for rq in c["reqs"]:
+            rq.setdefault("rules", c["rules"])
+            rq.setdefault("change", None)
+    return h
+
+
+def all_rule_docs(h):
+    for c in h["conns"]:
+        for rq in c["reqs"]:
+            for d in rq["rules"].values():
+                yield d
+
+
+def doc_json(d):
+    return None if d is None else json.loads(G.doc_to_json(d))
 
 
 def marker(h, c, j):
@@ -199,7 +242,10 @@ def to_scenario(h, pool, reference=False):
         reqs = []
         for j, r in enumerate(c["reqs"]):
             raw = http_request(r["method"], r["target"], [("Metadata", "true"), ("x-marker", marker(h, c, j))], body=r["body"])
-            reqs.append(req(raw))
+            if r["change"] and not reference:
+                reqs.append(req(raw, ops_before=[{"op": "set_rules", "endpoint": r["change"], "item": doc_json(r["rules"][r["change"]])}]))
+            else:
+                reqs.append(req(raw))
         ops = []
         if not reference:
             if c["change"]:
@@ -234,7 +280,7 @@ def expect_request(h, c, r, who, exe):
         return 403, False, True            # requests addressed to the agent's own listener are refused (C03)
     if dest in (WIRESERVER, HOSTGA) and who["admin"] != 1:
         return 403, False, True            # root-only endpoints whatever the rules and the mode (C03)
-    doc = c["rules"][ENDPOINT_KEY[dest]]
+    doc = r["rules"][ENDPOINT_KEY[dest]]
     if doc is None or G.parse_mode_py(doc["mode"]) == "disabled":
         return 200, True, False            # no rules / disabled: not consulted
     path, query = G.split_url(r["target"])
@@ -409,11 +455,12 @@ def coq_history(h, r, pool, upto=None):
             break
         who = pool[c["caller"]]
         exe, cmd = resolve(who, r)
-        rk = json.dumps({k: (None if d is None else G.doc_to_json(d)) for k, d in c["rules"].items()}, sort_keys=True)
-        if rk not in envs:
-            envs[rk] = "e%d" % len(envs)
-            defs.append("let %s := mk_env %s %s %s in" % (envs[rk], *[
-                copt(None if c["rules"][k] is None else G.coq_item(c["rules"][k]), "item") for k in ("wireserver", "hostga", "imds")]))
+        for rq in c["reqs"]:
+            rk = json.dumps({k: (None if d is None else G.doc_to_json(d)) for k, d in rq["rules"].items()}, sort_keys=True)
+            if rk not in envs:
+                envs[rk] = "e%d" % len(envs)
+                defs.append("let %s := mk_env %s %s %s in" % (envs[rk], *[
+                    copt(None if rq["rules"][k] is None else G.coq_item(rq["rules"][k]), "item") for k in ("wireserver", "hostga", "imds")]))
         ck = "c_" + c["caller"].replace("-", "_")
         if ck not in envs:
             envs[ck] = ck
@@ -421,6 +468,7 @@ def coq_history(h, r, pool, upto=None):
         cl = ck
         port = int(c["dest"].rsplit(":", 1)[1])
         for j, rq in enumerate(c["reqs"]):
+            rk = json.dumps({k: (None if d is None else G.doc_to_json(d)) for k, d in rq["rules"].items()}, sort_keys=True)
             path, _, q = rq["target"].partition("?")
             items.append("(%s, mk_rv %s %s %d %d %s %s %s %s)" % (
                 "true" if (c["clear"] and j == 0) else "false", envs[rk], cl, ip_n(c["dest"]), port, "m" + ck, cb(rq["method"]),
@@ -484,16 +532,63 @@ def run(ctx):
                         {"id": 2, "caller": "root-a", "dest": IMDS, "reqs": [{"method": "GET", "target": TARGETS[0], "body": b""}],
                          "rules": {"wireserver": None, "hostga": None, "imds": deny}, "change": None, "clear": False}],
               "key": False, "status_task": True}
-        hs = [f8] + hs
-        scs, refmap = [], {}
-        for i, h in enumerate(hs):
-            scs.append(to_scenario(h, pool))
-        for i, h in enumerate(hs):
-            if any(d is not None and G.parse_mode_py(d["mode"]) == "audit" for c in h["conns"] for d in c["rules"].values()):
-                refmap[i] = len(scs)
-                scs.append(to_scenario(h, pool, reference=True))
-        results = e2e.run_scenarios(ctx, scs, timeout=2400, shards=4 if ctx.quick else 8)
-        ctx.log("implementation: %d histories (+%d reference runs without rules)" % (len(hs), len(refmap)))
+        none3 = {"wireserver": None, "hostga": None, "imds": None}
+        get0 = {"method": "GET", "target": TARGETS[0], "body": b""}
+
+        def fixed(idx, conns, concurrent=False, rules=None, **kw):
+            rules = rules or none3
+            for c in conns:
+                c.setdefault("rules", rules)
+                c.setdefault("change", None)
+                c.setdefault("clear", False)
+            return dict({"idx": idx, "concurrent": concurrent, "callers": sorted({c["caller"] for c in conns}), "rules": rules,
+                         "conns": conns, "key": False, "status_task": True}, **kw)
+        # two callers whose command lines share a 300-character prefix (same user, executable, destination), both refused
+        longs = fixed(990002, [{"id": 1, "caller": "nobody-longA", "dest": WIRESERVER, "reqs": [get0] * 2},
+                               {"id": 2, "caller": "nobody-longB", "dest": WIRESERVER, "reqs": [get0]}])
+        # the mode flips audit -> enforce -> disabled -> enforce while one keep-alive connection stays open
+        def imds(mode):
+            return {"wireserver": None, "hostga": None, "imds": {"defaultAccess": "deny", "mode": mode, "id": "m", "rules": None}}
+        flips = fixed(990003, [{"id": 1, "caller": "root-helper", "dest": IMDS, "rules": imds("audit"), "reqs": [
+            dict(get0), dict(get0, rules=imds("enforce"), change="imds"), dict(get0, rules=imds("enforce")),
+            dict(get0, rules=imds("disabled"), change="imds"), dict(get0, rules=imds("enforce"), change="imds"),
+            dict(get0, rules=imds("audit"), change="imds")]}], rules=imds("audit"))
+        # bursts: many denials at the same instant, every one of them must be counted
+        nburst = 320
+        burst_e = fixed(990004, [{"id": i + 1, "caller": "root-helper", "dest": IMDS, "reqs": [get0]} for i in range(nburst)],
+                        concurrent=True, rules=imds("enforce"), burst=True)
+        burst_a = fixed(990005, [{"id": i + 1, "caller": "root-helper", "dest": IMDS, "reqs": [get0] * 25} for i in range(14)],
+                        concurrent=True, rules=imds("audit"), burst=True)
+        hs = [finalize(h) for h in [f8, longs, flips, burst_e, burst_a] + hs]
+
+        def run_batch(batch, env=None, shards=None):
+            scs, refmap = [], {}
+            for h in batch:
+                sc = to_scenario(h, pool)
+                if h.get("burst"):
+                    sc.update({"timeout_ms": 120000, "scenario_timeout_ms": 400000, "drain_timeout_ms": 60000})
+                scs.append(sc)
+            for i, h in enumerate(batch):
+                if not h.get("burst") and any(d is not None and G.parse_mode_py(d["mode"]) == "audit" for d in all_rule_docs(h)):
+                    refmap[i] = len(scs)
+                    scs.append(to_scenario(h, pool, reference=True))
+            res = e2e.run_scenarios(ctx, scs, timeout=2400, shards=shards, env=env)
+            return scs, res[:len(batch)], {i: res[k] for i, k in refmap.items()}
+
+        scs, results, refs = run_batch(hs, shards=4 if ctx.quick else 8)
+        # the same bursts and a few concurrent histories again on a current-thread runtime (E2E_THREADS=0)
+        import copy
+        again = []
+        for h in [burst_e, burst_a] + [h for h in hs if h["concurrent"] and not h.get("burst")][:6]:
+            h2 = copy.deepcopy(h)
+            h2["idx"] = h["idx"] + 5000000
+            h2["runtime"] = "current_thread"
+            again.append(h2)
+        scs2, results2, refs2 = run_batch(again, env={"E2E_THREADS": "0"}, shards=2)
+        for i, r in refs2.items():
+            refs[len(hs) + i] = r
+        hs, scs, results = hs + again, scs + scs2[:len(again)], results + results2
+        ctx.log("implementation: %d histories (+%d reference runs without rules)" % (len(hs), len(refs)))
 
         exprs, owners = [], []
         for i, (h, r) in enumerate(zip(hs, results)):
@@ -514,7 +609,7 @@ def run(ctx):
             if not r.get("ok") or r.get("panics") or any(c.get("connect_error") or c.get("error") for c in r["connections"]):
                 disagreements.append({"case": case, "model": "runs", "impl": {"error": r.get("error"), "panics": r.get("panics")}})
                 continue
-            ref = results[refmap[i]] if i in refmap else None
+            ref = refs.get(i)
             f = property_check(h, r, ref, pool, sep_byte)
             if f:
                 f = dict(f)
@@ -570,11 +665,11 @@ def run(ctx):
         total = len(hs)
         ctx.coverage.update({
             "evaluations": stats["requests"],
-            "distinct_nontrivial": len({(c["caller"], c["dest"], rq["target"], rq["method"], json.dumps({k: (None if d is None else G.doc_to_json(d)) for k, d in c["rules"].items()}, sort_keys=True))
-                                        for h in hs for c in h["conns"] for rq in c["reqs"] if c["dest"] in ENDPOINT_KEY and c["rules"][ENDPOINT_KEY[c["dest"]]] is not None}),
+            "distinct_nontrivial": len({(c["caller"], c["dest"], rq["target"], rq["method"], json.dumps({k: (None if d is None else G.doc_to_json(d)) for k, d in rq["rules"].items()}, sort_keys=True))
+                                        for h in hs for c in h["conns"] for rq in c["reqs"] if c["dest"] in ENDPOINT_KEY and rq["rules"][ENDPOINT_KEY[c["dest"]]] is not None}),
             "traces_validated_against_impl": total - len({json.dumps(d["case"].get("name"), sort_keys=True) for d in disagreements}),
             "rule": "histories of 5-60 requests on 1-8 connections (sequential, with rule changes and summary clears between connections) or 4 "
-                    "concurrent keep-alive connections, 1-4 callers out of 8 (root/nobody/no-such-user x driver/sleep/custom executables, two of "
+                    "concurrent keep-alive connections, 1-4 callers out of 10 (root/nobody/no-such-user x driver/sleep/custom executables, two of "
                     "them colliding under a space-joined key), destinations WireServer/HostGAPlugin/IMDS/other/self, per-endpoint rule "
                     "documents (mode enforce/audit/disabled in several spellings, default allow/deny, optional privileges/roles/identities) or no "
                     "rules; evaluations = requests; non-trivial = distinct (caller, destination, request, rule documents) with rules in force "
@@ -583,7 +678,8 @@ def run(ctx):
             "samples": [{"history": hs[1]["idx"], "callers": hs[1]["callers"], "statuses": e2e.statuses(results[1]),
                          "failed_summary": results[1]["summary"]["failed"][:3]},
                         {"f8_replay": {"callers": f8["callers"], "failed_summary": results[0]["summary"]["failed"]}}],
-            "input_distribution": dict(stats, histories=total, sequential=nseq + 1, concurrent=nconc, reference_runs=len(refmap),
+            "input_distribution": dict(stats, histories=total, sequential=nseq + 3, concurrent=nconc + 2 + len(again), reference_runs=len(refs),
+                                       current_thread_runtime_histories=len(again), burst_connections=nburst,
                                        key_separator_in_code=sep_byte),
         })
         ctx.assumptions += [
